@@ -49,7 +49,9 @@ PROPS["C16"] = {
     "channels": [{"cmd": "run-c16"}],
     "cone": r"^MISMATCH (json|json-fuel|harness|driver)",
     "rule": "documents nested exactly at, one and two levels past the recursion cap (closed, examined whole; open, truncated mode), verdict compared with the model; bombs of 10^4..10^6 (thorough: 10^7) levels in four shapes ('[', '{\"k\":', mixed, padded), open and closed, at limits 0 and 2^32-1, run in a process whose maximum stack is 16 MB: must return, must not be reported as JSON; a fatal stack overflow kills the shard (no DONE line) and is reported",
-    "proved": "",
+    "proved": "depth_bounded (recursion level <= cap for every input, query, limit), pool installs the cap (regenerated runtime dump), array_bomb_rejected (more than cap+1 opening brackets: not JSON in whole and truncated mode)",
+    "not_proved": "bytes of stack per frame; bombs of other shapes are decided on the implementation",
+    "data_obligations": ["pool_max_recursion = max_recursion = 4096"],
     "assumptions": COMMON_ASSUME + ["Go recursion depth equals the model's lvl structure (two frames per level)"],
 }
 
@@ -139,4 +141,13 @@ PROPS["C14"] = {
     "proved": "Extend prepends; priority and containment; non-interference; histories: for all trees, verdict functions and op sequences",
     "not_proved": "aliasing of the caller's alias slice backing array is a runtime fact (checked on the code)",
     "assumptions": COMMON_ASSUME + ["extension detectors are pure total predicates of (header, limit)"],
+}
+
+PROPS["C13"] = {
+    "channels": [{"cmd": "run-c13"}, {"cmd": "run-json", "shards": 8}],
+    "cone": r"^MISMATCH (csv|ndjson|json|harness|driver)",
+    "rule": "rectangular CSV / TSV tables (2-5 columns, 2-7 rows) and one-value-per-line JSON streams, LF and CRLF, with and without final newline, examined whole and at every limit from the end of the second line to len+2; one damaged line (ragged row / cut-off or trailing-garbage JSON value) before the last line; '#' comment lines inside tables; single-line files; fixed corner cases; Csv/Tsv vs the quote-free encoding/csv model, NdJSON vs model; non-trivial = result other than text/plain",
+    "proved": "dropLastLine characterised; ndjson_only_if (>= 2 lines, every complete line parsed in full or blank, one object/array) with parsed lines being relaxed JSON values (from C09); csv_only_if on the quote-free fragment",
+    "not_proved": "forward direction (survives every cut) and quoted CSV fields: decided on the implementation",
+    "assumptions": COMMON_ASSUME + ["encoding/csv behaves as the quote-free hand model (validated by correspondence)", "bufio.Reader.Reset discards all state"],
 }
